@@ -9,7 +9,7 @@ open Infretis Infretis.Proto Infretis.Store
   load  <list hexstr files> <file> <file> <file>     file = "-" (absent) or <nlines> { <ntoks> tok* }*
       tok = h | w<hex> | i<int> | f<int> | n
       → "<loaded>"
-  hist  <n> <delOld> <delAll> <a|r variant> <list keep-ext> <ninit> { <pn> <list name> }* <nops> { R <pnOld> <list name> <list name> | F }*
+  hist  <n> <delOld> <delAll> <a|r variant> <list keep-ext> <ninit> { <pn> <list name> }* <nops> { R <pnOld> <list name> <list name> | F | S <pn> <name> }*
       → one state per op, separated by " | "
 -/
 
@@ -93,6 +93,10 @@ def takeInit : Nat → List String → Option (List (Nat × List String) × List
 def takeOps : Nat → List String → Option (List Op × List String)
   | 0, rest => some ([], rest)
   | k + 1, "F" :: rest => (takeOps k rest).map (fun (os, r) => (Op.finish :: os, r))
+  | k + 1, "S" :: p :: nm :: rest =>
+    match parseNat? p with
+    | some p => (takeOps k rest).map (fun (os, r) => (Op.stale p nm :: os, r))
+    | none => none
   | k + 1, "R" :: p :: rest =>
     match parseNat? p, takeList some' rest with
     | some p, some (files, rest) =>
